@@ -35,7 +35,7 @@ Theorem C04_def_before_use :
   forall p r m inputs outputs, build_checked p r = inl m ->
   all_vars (r_inputs r) = Some inputs -> all_vars (r_outputs r) = Some outputs ->
   let p' := with_main p (Some (main_args inputs)) outputs in
-  wf (is_argP p') (insP p') (subsP p') (gargsP p') (gresP p') (noutsP p') (plan_of_graph p' 0 (mmain m)) [] [].
+  wf (is_argP p') (insP p' 0) (subsP p' 0) (gargsP p') (gresP p') (noutsP p') (plan_of_graph p' 0 (mmain m)) [] [].
 Proof. intros p r m i o H Hi Ho p'. apply build_checked_inv in H. destruct H as [_ Hv].
   pose proof (plan_checked p r m i o Hi Ho Hv) as Hc. unfold check_plan in Hc. apply andb_prop in Hc. destruct Hc as [_ Hw].
   apply wf_b_sound. exact Hw. Qed.
